@@ -111,7 +111,7 @@ func c18Sess(kv map[string]string) string {
 		case made:
 			res = "made"
 		default:
-			c, ok := p.(*comp)
+			c, ok := asComp(p)
 			switch {
 			case p == nil || (ok && c == nil):
 				res = "nil"
